@@ -218,6 +218,20 @@ func C02Input(r *ev.Run) {
 			mu.Unlock()
 		}
 	})
+	// S4: more messages than any 8- or 16-bit counter holds
+	{
+		tiny := ref.Frame([]byte{0x41})
+		var long []byte
+		for i := 0; i < 66000; i++ {
+			long = append(long, tiny...)
+			if i%257 == 0 {
+				long = append(long, 'x', byte(i), 'y')
+			}
+		}
+		one(long)
+		r.Count(1, 1, 1, 1)
+		atomic.AddInt64(&r.DistinctN, 1)
+	}
 	r.Sample(map[string]interface{}{"enumeration": "S3", "junk_run_lengths": len(lens), "longest": 65538})
 }
 
@@ -250,6 +264,11 @@ func c03Menu(thorough bool) (frames, junk []namedSeg) {
 		}
 		return fillNoD3(i)
 	}))
+	// CRC values that code might use as 'nothing here': all zero, all ones, one bit, all 0xD3
+	addF("Fcrc000000", ref.FrameWithCRC(1005, 19, fillA, 0x000000))
+	addF("FcrcFFFFFF", ref.FrameWithCRC(1077, 22, validTimestampFill, 0xFFFFFF))
+	addF("Fcrc000001", ref.FrameWithCRC(1230, 8, fillA, 0x000001))
+	addF("FcrcD3D3D3", ref.FrameWithCRC(1006, 21, fillA, 0xD3D3D3))
 	addJ := func(name string, b []byte) { junk = append(junk, namedSeg{name, b, "junk"}) }
 	addJ("j1", []byte{0x0A})
 	addJ("j2", []byte{0x24, 0x47})
@@ -316,7 +335,7 @@ func classifyMismatch(got []delivered, want []ref.Seg) string {
 // C03: valid frames and D3-free junk are delivered exactly as constructed.
 func C03(r *ev.Run) {
 	thorough := r.Tier == "thorough"
-	r.Rule = "all sequences of <=3 (quick) / <=4 (thorough) segments from 16 valid frames (11 types, payload lengths 1,2,4,5,9,12,19,22,63,64,211,255,256,1022,1023, payload/CRC/length byte containing 0xD3) and 5 D3-free junk runs, each optionally followed by a frame truncated at every byte position; plus every payload length 1..1023 alone, between junk and back-to-back; plus a frame after, and frames round, a 0xD3-free run of every length 1..300 and round every power of two up to 64K (thorough: every length to 8300); expected output is the constructed segment list (adjacent junk merged); plus three consecutive streams through ONE handler with the real HandleMessages (fresh channels each time): a first stream ending at a frame boundary, in junk, or in a frame truncated after 1,2,3,4,5,6,10,n-3,n-1 bytes, then every sequence of <=2 menu segments, then frame+junk+frame, each stream segmented as if it were the first. Non-trivial = contains at least one valid frame; distinct = distinct streams"
+	r.Rule = "all sequences of <=3 (quick) / <=4 (thorough) segments from 20 valid frames (11 types, payload lengths 1,2,4,5,9,12,19,22,63,64,211,255,256,1022,1023, payload/CRC/length byte containing 0xD3, CRC values 000000, FFFFFF, 000001 and D3D3D3) and 5 D3-free junk runs, each optionally followed by a frame truncated at every byte position; plus every payload length 1..1023 alone, between junk and back-to-back; plus a frame after, and frames round, a 0xD3-free run of every length 1..300 and round every power of two up to 64K (thorough: every length to 8300); expected output is the constructed segment list (adjacent junk merged); plus three consecutive streams through ONE handler with the real HandleMessages (fresh channels each time): a first stream ending at a frame boundary, in junk, or in a frame truncated after 1,2,3,4,5,6,10,n-3,n-1 bytes, then every sequence of <=2 menu segments, then frame+junk+frame, each stream segmented as if it were the first. Non-trivial = contains at least one valid frame; distinct = distinct streams"
 	r.Assumptions = []string{"precondition of C03 holds by construction (junk has no 0xD3 byte; frames built by the reference encoder)"}
 	frames, junk := c03Menu(thorough)
 	menu := append(append([]namedSeg{}, frames...), junk...)
@@ -413,6 +432,17 @@ func C03(r *ev.Run) {
 		check([]namedSeg{frames[3], jr, frames[0]}, nil)
 	})
 	r.Extra["junk_run_lengths_swept"] = len(jl)
+	// one stream with more messages than any 8- or 16-bit counter holds
+	{
+		var parts []namedSeg
+		for i := 0; i < 66000; i++ {
+			parts = append(parts, frames[i%3])
+			if i%257 == 0 {
+				parts = append(parts, junk[1])
+			}
+		}
+		check(parts, nil)
+	}
 	// several streams through ONE handler with the real HandleMessages (an
 	// application that reconnects keeps its handler): however the earlier stream
 	// ended, the next is segmented as if it were the first
@@ -491,12 +521,14 @@ func streamBytes(parts []namedSeg, tail []byte) []byte {
 // C12: a frame corrupted in payload/CRC is discarded alone.
 func C12(r *ev.Run) {
 	thorough := r.Tier == "thorough"
-	r.Rule = "streams of 3 segments (valid frames / D3-free junk) with the victim frame in each position; victim payload lengths 1,2,4,22,64,255 (thorough adds 1023); corruptions of payload+CRC only: every single-bit flip, every adjacent 2-bit flip, every byte overwritten with 00, FF, D3 and original^0x80, plus every pair of bytes (first/last payload byte, each CRC byte) set to D3; only CRC-breaking corruptions are kept; expected = uncorrupted delivery with the victim replaced by one non-RTCM message of exactly its bytes; for streams without junk merging the time text, timestamp and error text of every other message must also equal those of the uncorrupted delivery (neighbours include header-only MSM frames of GPS, BeiDou and GLONASS). Non-trivial = every case (each has a corrupted victim); distinct = distinct streams"
+	r.Rule = "streams of 3 segments (valid frames / D3-free junk) with the victim frame in each position; victim payload lengths 1,2,4,22,64,255 (thorough adds 1023); corruptions of payload+CRC only: every single-bit flip, every adjacent 2-bit flip, every byte overwritten with 00, FF, D3 and original^0x80, plus every pair of bytes (first/last payload byte, each CRC byte) set to D3; only CRC-breaking corruptions are kept; expected = uncorrupted delivery with the victim replaced by one non-RTCM message of exactly its bytes; for streams without junk merging the time text, timestamp and error text of every other message must also equal those of the uncorrupted delivery (neighbours include header-only MSM frames of GPS, BeiDou and GLONASS, and the victim's own uncorrupted frame before and after it). Non-trivial = every case (each has a corrupted victim); distinct = distinct streams"
 	frames, junk := c03Menu(thorough)
 	msmGPS := namedSeg{"F1077/22-header", ref.HeaderOnlyMSM(1077, 5000), "frame"}
 	msmBDS := namedSeg{"F1124/22-header", ref.HeaderOnlyMSM(1124, 5000), "frame"}
 	msmGLO := namedSeg{"F1087/22-header", ref.HeaderOnlyMSM(1087, 1<<27|5000), "frame"}
-	neigh := []namedSeg{frames[0], frames[2], frames[12], junk[2], junk[0], msmGPS, msmBDS, msmGLO}
+	// "=victim": the uncorrupted frame itself as a neighbour - base stations repeat
+	// 1005/1006/1230 unchanged, so a damaged copy next to a good one is the common case
+	neigh := []namedSeg{frames[0], frames[2], frames[12], junk[2], junk[0], msmGPS, msmBDS, msmGLO, {"=victim", nil, "frame"}}
 	vlens := []int{1, 2, 4, 22, 64, 255}
 	if thorough {
 		vlens = append(vlens, 1023)
@@ -532,6 +564,12 @@ func C12(r *ev.Run) {
 			if t != 1005 {
 				victim = ref.HeaderOnlyMSM(t, ts)
 			}
+		}
+		if jb.a.Name == "=victim" {
+			jb.a = namedSeg{"same-as-victim", victim, "frame"}
+		}
+		if jb.b.Name == "=victim" {
+			jb.b = namedSeg{"same-as-victim", victim, "frame"}
 		}
 		// time fields of the uncorrupted delivery, for the differential clause
 		cleanTimes := func(parts []namedSeg) []string {
